@@ -63,7 +63,11 @@ func runLargeBatch(rc *RunCtx) *RunResult {
 		failAt = T.Draw(5, "large.failat")
 	}
 
-	cas.WriteFault = func(i int, _ []byte) error {
+	var files [][]byte
+
+	cas.WriteFault = func(i int, content []byte) error {
+		files = append(files, append([]byte(nil), content...))
+
 		if i == failAt {
 			k.Count("fault:cas.werr")
 
@@ -231,6 +235,20 @@ func runLargeBatch(rc *RunCtx) *RunResult {
 			lastRank = r
 		}
 	}
+
+	Heartbeat()
+
+	if m, err := tightReadBack(cas, files, t); err != nil {
+		fail("readback/tight-limits", fmt.Sprintf("a batch of %d operations whose files are within the size limits (at the limit) does not read back: %v", n, err))
+
+		return finish()
+	} else if m >= 0 && m != n {
+		fail("readback/tight-limits", fmt.Sprintf("a batch of %d operations read back as %d operations under exactly sufficient size limits", n, m))
+
+		return finish()
+	}
+
+	Heartbeat()
 
 	if len(info.OperationReferences) != n {
 		fail("readback/references", fmt.Sprintf("%d operation references for %d included operations", len(info.OperationReferences), n))
